@@ -406,7 +406,7 @@ func genSchema(types map[string][]string) func(t *rapid.T) SCase {
 			switch k := rapid.IntRange(0, 3).Draw(t, "dflt"); {
 			case k != 0:
 			case strings.Contains(lt, "int") || strings.HasPrefix(lt, "numeric") || strings.HasPrefix(lt, "decimal") || strings.HasPrefix(lt, "double") || lt == "real" || strings.HasPrefix(lt, "float"):
-				c.Default = rapid.SampledFrom([]string{"0", "7", "-1", "3.5", "3.14159265358979", "1e5", "0.000001", "18446744073709551616"}).Draw(t, "ndef")
+				c.Default = rapid.SampledFrom([]string{"0", "7", "-1", "3.5", "3.14159265358979", "1e5", "0.000001", "18446744073709551616", "1234567890.123456789", "0.1000000000000000055"}).Draw(t, "ndef")
 			case strings.Contains(lt, "char") || strings.Contains(lt, "text"):
 				c.Default = rapid.SampledFrom([]string{"'x'", "''", "'it''s'", "'a;b'", `'say "hi"'`, "'back\\slash'", "'true'", "'null'", "'1'", "'0x10'", `'"x"'`, "'1e5'", "'${x}'", "' '"}).Draw(t, "sdef")
 			case strings.Contains(lt, "time") || strings.Contains(lt, "date"):
